@@ -29,7 +29,7 @@ FFLAGS = "-O1 -g -fno-omit-frame-pointer"
 DRV_FFLAGS = ["-O1", "-g", "-w", "-fno-omit-frame-pointer", "-ffree-line-length-none", "-fsanitize=address,undefined",
               "-fno-sanitize-recover=undefined"]
 DRV_SRC = ["c20f_drv.f90", "c20f_mll1.f90", "c20f_mll2.f90", "c20f_mll3.f90", "c20f_cgio.f90", "c20f_extra.f90", "c20f_dl2.f90",
-           "c20f_main.f90"]
+           "c20f_goto20.f90", "c20f_main.f90"]
 DL = [1, 8, 31, 32, 33, 40, 80]
 # declared lengths per argument of the dl2_* operations (harness/c20f_dl2.f90): all orderings of three distinct lengths
 TRIPLES = [(8, 32, 40), (8, 40, 32), (32, 8, 40), (32, 40, 8), (40, 8, 32), (40, 32, 8), (1, 33, 80), (80, 31, 1)]
@@ -388,6 +388,64 @@ def gen_goto_script(rng, stats):
     return s
 
 
+def gen_deep_script(rng, stats):
+    """cg_goto_f / cg_gorel_f with EVERY number of pairs 1..20 (CG_MAX_GOTO_DEPTH) on a tree Base / Zone_t / UserDefinedData_t x 18
+    (the base counts: 19 real steps is the deepest position the library keeps) in which the index of the node on the path
+    differs at every depth (distinct values of 1..20) and so does its name; the 20th pair is a "." step put at a random place.
+    A pair that one of the twenty look-alike blocks of the module procedure swaps, repeats or drops lands elsewhere (cg_where,
+    marker)."""
+    R = 19
+    perm = list(range(1, 21))
+    rng.shuffle(perm)
+    z = min(perm[0], 3)                          # index of the zone on the path (1..3)
+    idx = [z] + [v for v in perm if v != z][:R - 1]
+    nz = 3
+    s = ["open w", "base %s 3 3" % hx(b"Base")]
+    zn = [("Zn%d" % j).encode() for j in range(1, nz + 1)]
+    s += ["zone %s 1 s 3" % hx(n) for n in zn]
+    names = [zn[z - 1]]
+    s.append("goto 1 Zone_t %d" % z)
+    for d in range(2, R + 1):
+        p = idx[d - 1]
+        cnt = min(20, p + rng.choice([0, 0, 1, 2]))    # a too large index of another depth sometimes still finds a node
+        s += ["user_data_write %s" % hx(("L%d_%d" % (d, j)).encode()) for j in range(1, cnt + 1)]
+        s.append("gorel UserDefinedData_t %d" % p)
+        names.append(("L%d_%d" % (d, p)).encode())
+    s += ["close", "open m"]
+    lab = lambda d: b"Zone_t" if d == 1 else b"UserDefinedData_t"
+    by_label = lambda d: "%s %d" % (hx(lab(d)), idx[d - 1])
+    by_name = lambda d: "%s 0" % hx(names[d - 1])
+    dot = "%s 0" % hx(b".")
+    mk = [0]
+
+    def observe():
+        mk[0] += 1
+        return ["where", "descriptor_write %s %s" % (hx(("Dk%d" % mk[0]).encode()), hx(b"m"))]
+    forms = {"label": by_label, "name": by_name, "alt": lambda d: by_label(d) if d % 2 else by_name(d),
+             "alt2": lambda d: by_name(d) if d % 2 else by_label(d)}
+
+    def pairs(f, lo, hi, with_dot=None):
+        out = [f(d) for d in range(lo, hi + 1)]
+        if with_dot is not None:
+            out.insert(with_dot, dot)
+        return " ".join(out)
+    for f in ("label", "name", "alt", "alt2"):       # twenty pairs: 19 steps and a "." at place 2..20
+        s.append("gotov 1 20 " + pairs(forms[f], 1, R, with_dot=rng.randint(1, R)))
+        s += observe()
+    for k in range(1, R + 1):                        # every number of pairs
+        s.append("gotov 1 %d " % k + pairs(forms[rng.choice(["label", "label", "name", "alt", "alt2"])], 1, k))
+        s.append("where")
+    for _ in range(4):                               # cg_gorel_f: the rest of the path in one relative move
+        j = rng.randint(1, R - 1)
+        s.append("gotov 1 %d " % j + pairs(forms[rng.choice(list(forms))], 1, j))
+        s.append("gorelv %d " % (R - j) + pairs(forms[rng.choice(list(forms))], j + 1, R))
+        s += observe()
+    s += ["gotov 1 1 %s" % by_label(1), "gorelv 20 " + pairs(by_label, 2, R, with_dot=rng.randint(0, R - 1)) + " " + dot, "where",
+          "gotov 1 1 %s" % by_name(1), "gorelv 19 " + pairs(by_name, 2, R, with_dot=rng.randint(0, R - 1)), "where",
+          "gotov 1 20 " + pairs(by_label, 1, R) + " " + by_label(2), "where", "get_error 40", "close"]     # a 20th real step: depth exceeded
+    return s
+
+
 def gen_twofile_script(rng, stats):
     """two files open at once: the position is in one, cg_gorel_f / cg_goto_f / node-context calls get the OTHER handle"""
     s = ["open w", "base %s 3 3" % hx(b"BaseA"), "zone %s 1 s 3" % hx(b"ZA"), "sol_write 1 1 %s 2" % hx(b"SolA"),
@@ -482,7 +540,7 @@ def c20_script(gen_name):
 
 
 GENERATORS = [("mll", c20_script("gen_mll_script")), ("cgio", c20_script("gen_cgio_script")),
-              ("modproc", gen_modproc_script), ("dlio", gen_dlio_script), ("goto", gen_goto_script), ("twofile", gen_twofile_script),
+              ("modproc", gen_modproc_script), ("dlio", gen_dlio_script), ("goto", gen_goto_script), ("deep", gen_deep_script), ("twofile", gen_twofile_script),
               ("multichar", gen_multichar_script)]
 
 
